@@ -137,6 +137,7 @@ type Sim struct {
 	coopProgress int // successful cooperative operations (lock taken, value sent/received)
 	mail         []*mailItem
 	fin          finState
+	handoff      []handoffItem
 	finishedRun  bool
 	Deadlocked   string // non-empty: the run was abandoned because every live task was blocked
 	inRun        bool
@@ -738,6 +739,44 @@ func (s *Sim) Orphans() int {
 		}
 	}
 	return n
+}
+
+// Handoff is a mailbox through which harness tasks pass objects to each other
+// (a producer gets a buffer, a consumer puts it back). Giving synchronises
+// before taking, as a channel would.
+type handoffItem struct {
+	p    unsafe.Pointer
+	a, b int
+}
+
+// HandoffGive places p (with two integers of context) into the mailbox.
+//
+//go:norace
+func (s *Sim) HandoffGive(p unsafe.Pointer, a, b int) {
+	raceReleaseMerge(p)
+	n := len(s.handoff)
+	bigger := make([]handoffItem, n+1)
+	for i := 0; i < n; i++ {
+		bigger[i] = s.handoff[i]
+	}
+	bigger[n] = handoffItem{p, a, b}
+	s.handoff = bigger
+}
+
+// HandoffTake removes the oldest object from the mailbox (nil if empty).
+//
+//go:norace
+func (s *Sim) HandoffTake() (unsafe.Pointer, int, int) {
+	if len(s.handoff) == 0 {
+		return nil, 0, 0
+	}
+	it := s.handoff[0]
+	for i := 0; i+1 < len(s.handoff); i++ {
+		s.handoff[i] = s.handoff[i+1]
+	}
+	s.handoff = s.handoff[:len(s.handoff)-1]
+	raceAcquire(it.p)
+	return it.p, it.a, it.b
 }
 
 // Steps returns the number of scheduler steps executed.
